@@ -35,8 +35,15 @@ RULE = ("setter/connect/update sequences (all orders, lengths 1..8); idle+cut se
         "<= tau, delays <= d, copies, tampered copies) on a grid incl. the tightest T, plus the scripted exactness witnesses")
 ASSUMPTIONS = ["time values are multiples of 1/1024 s (exact in binary floating point), so every float comparison in the code "
                "has the truth value of the model's integer comparison",
-               "real clocks / thread scheduling are not modelled: update() calls are the harness's ticks"]
-TRUSTED = ["harness/connsim.py + netsim.py virtual clock (mpgameserver.connection.time replaced by a shim)"]
+               "real clocks / thread scheduling are not modelled: update() calls are the harness's ticks",
+               "two-endpoint theorems: the network shows every datagram to the peer within d of its emission (copies only within d; "
+               "anything else offered does not open under the session key; no bytes with an unparsable header), both sides call "
+               "update() at least every tau, fewer than half the sequence ring in flight (d <= 32766 * (max(K, si) + 1)), and the pair "
+               "starts established with nothing in flight"]
+TRUSTED = ["harness/connsim.py + netsim.py virtual clock (mpgameserver.connection.time replaced by a shim)",
+           "harness/idlesim.py applies the server loop's sweep to one connection itself (DISCONNECTING -> disconnect(); removed when "
+           "DISCONNECTED or ConnectionBase.timedout(connection_timeout); update() either way) instead of running UdpServerThread; "
+           "Coq: C12_server_sweep_is_the_server_loop relates the same step to the server-loop model of C10/C11"]
 
 T = S.TICKS
 
